@@ -159,7 +159,15 @@ reg(
     "DESIGN.md §3 C16",
 )
 
-NOT_BUILT_REASON = "check not built yet in this revision (claimed by DESIGN.md; see §5 order of work)"
+reg(
+    "C17", "exploration",
+    "robustness fuzz with taint tracking: hostile text at every LLM call position of real LLMRails conversations, judged on generate's result/exception and on evaluated taint markers",
+    "~5600 (thorough ~24.7k) conversations of 1-3 turns on real LLMRails instances in seven modes (v1 three-step dialog, single-call, multi-step generation, general, passthrough; v2 `llm continuation` incl. generated values and flows from names, and `continuation on unhandled user utterance`). Every LLM call answers well-formed for its task except exactly one position, which returns a text from a 207-string hostile corpus, 23 taint expressions wrapped into the message slot, unquoted expressions at value positions, or mutations of the well-formed completion. Refuted by: generate raising anything but LLMCallException, exceeding the logical step budget (v1), a reply that is not a well-formed assistant/exception message, or a planted marker appearing EVALUATED in the reply (7907*7919 -> 62615533, context/flow/config secrets, `2.x`). Crashes of post-processing actions that the dispatcher contains (well-formed internal-error reply) satisfy the statement and are only counted.",
+    "trusts the per-task well-formed answer script (keyed on the rendered task prompt) and the marker discipline (markers a text spells literally are dropped); streaming, embeddings_only and NLD tool flows are not driven",
+    "DESIGN.md §3 C17",
+)
+
+NOT_BUILT_REASON = "check not built yet in this revision"
 
 
 def build():
